@@ -110,10 +110,65 @@ def run(ctx):
         if sum(windows.values()) == 0:
             raise Inconclusive("no schedule entered the critical window: the monitor would not see the hazard")
         native_stress(ctx, vh, 40 if quick else 2000)
+        scan_vs_edit(ctx, 8 if quick else 300)
     finally:
         vh.close()
     if not quick:
         sanitizers(ctx)
+
+
+def scan_vs_edit(ctx, rounds):
+    """the real workspace scan (walk, parallel analysis, venv phase, import phase) on one native thread and an editor's
+    analysis of ONE other file (a module in the middle of a conftest's import chain, text unchanged) on another: the files
+    nobody edited must end up indexed exactly as by a scan alone"""
+    import shutil
+    from ..common import write_tree
+    from ..twins import raw_multiset
+    root = ctx.scratch("scan_edit")
+    helpers = "from .deep_fixtures import *\nimport pytest\n\n@pytest.fixture\ndef helper_fx():\n    return 1\n"
+    files = {"pkg/__init__.py": "", "pkg/conftest.py": "from .helpers import *\n", "pkg/helpers.py": helpers,
+             "pkg/deep_fixtures.py": "from .deeper import *\nimport pytest\n\n@pytest.fixture\ndef deep_fx():\n    return 2\n",
+             "pkg/deeper.py": "import pytest\n\n@pytest.fixture\ndef deeper_fx(deep_fx):\n    return 3\n",
+             "pkg/test_use.py": "def test_u(helper_fx, deep_fx, deeper_fx):\n    pass\n"}
+    for i in range(150):
+        files[f"bulk/test_b{i}.py"] = "import pytest\n\n@pytest.fixture\ndef local_%d():\n    return 1\n\ndef test_b(local_%d):\n    pass\n" % (i, i)
+    write_tree(root, files)
+    hp = os.path.join(root, "pkg/helpers.py")
+    p = VH(vh_bin(), env={"VERIF_DELAY": f"{ctx.seed + 5}:100000"})
+    try:
+        ref = p.new_db()
+        p.call(op="scan", db=ref, root=root, timeout=300)
+        p.call(op="analyze", db=ref, path=hp, text=helpers)
+        mref = raw_multiset(p.call(op="raw", db=ref))
+        for k in ("imports", "file_cache", "plugin_files"):
+            mref.pop(k, None)
+        for rnd in range(rounds):
+            db = p.new_db()
+            edit = [{"op": "analyze", "db": db, "path": hp, "text": helpers}]
+            edit = edit * (1 + rnd % 3)          # the same buffer re-sent a few times, at different moments of the scan
+            r = p.call(op="stress", threads=[[{"op": "scan", "db": db, "root": root}], edit], timeout=300)
+            if any(isinstance(x, dict) and x.get("thread_panic") for x in r["results"]):
+                ctx.violation({"kind": "panic-in-scan-vs-edit"}, {"round": rnd})
+            m = raw_multiset(p.call(op="raw", db=db))
+            for k in ("imports", "file_cache", "plugin_files"):
+                m.pop(k, None)
+            inv = p.call(op="invariants", db=db)["violations"]
+            ctx.judged()
+            # the edited file itself is C10's business (KF-C10-scan-after-open): compare everything else
+            def others(mm):
+                return {k: [x for x in v if hp not in str(x)] if isinstance(v, list) else {a: b for a, b in v.items() if hp not in str(a) and hp not in str(b)}
+                        for k, v in mm.items()}
+            if others(m) != others(mref):
+                from ..twins import diff, brief
+                dd = diff(others(mref), others(m))
+                ctx.violation({"kind": "scan-concurrent-with-edit-of-another-file", "first": str(dd[0][0])[:120] if dd else "?"},
+                              {"round": rnd, "diffs": [(str(a)[:100], brief(b), brief(c)) for a, b, c in dd[:4]], "invariants": inv[:3]}, files=files)
+            p.call(op="drop_db", db=db)
+        ctx.nontrivial(("scan_vs_edit", rounds > 0))
+        ctx.count("scan_vs_edit_rounds", rounds)
+    finally:
+        p.close()
+        shutil.rmtree(root, ignore_errors=True)
 
 
 def native_stress(ctx, vh, rounds):
